@@ -114,7 +114,8 @@ def run(ctx, cases_override=None):
         "evaluations": names_tried,
         "distinct_nontrivial": len(distinct),
         "rule": "evaluation = one entry name offered to one CLI run; non-trivial = (name, separators, preserve, chain, explicit) with at least one component other than a plain one",
-        "exhaustive": bool(ctx.thorough and not cases_override),
+        "exhaustive": False,
+        "exhaustive_note": "thorough enumerates the base grammar (<= 4 components over 7 kinds) completely; names with `..` look-alikes and 5-6 component names are sampled",
     }
     assumptions = ["posix path semantics (Linux); no symlinks inside the sandbox",
                    "leading-separator names are redirected to a stand-in root inside the sandbox",
